@@ -75,9 +75,16 @@ func (fc *faultCtx) settleAndJudge(baseUps, baseDowns int) {
 		note  string
 	}
 	upVerdict := map[*upH]verdict{}
-	for i := 0; i < baseUps; i++ {
-		h := y.Ups[i]
+	misc := 1 + baseUps + baseDowns // the task that opened streams in the middle of the run (C05)
+	for i, h := range y.Ups {
 		ti := 1 + i
+		if i >= baseUps {
+			// a stream opened during the run (possibly during or across an outage) keeps working too
+			if prop != "C05" || h.U == nil || h.B == nil || h.CloseOp != nil || !s.Idle(misc) {
+				continue
+			}
+			ti = misc
+		}
 		if !s.Idle(ti) {
 			// the writer is still blocked in Write/Flush: that is a verdict of its own
 			op := s.Busy(ti)
@@ -132,9 +139,14 @@ func (fc *faultCtx) settleAndJudge(baseUps, baseDowns int) {
 		}
 	}
 	downVerdict := map[*downH]verdict{}
-	for i := 0; i < baseDowns; i++ {
-		h := y.Downs[i]
+	for i, h := range y.Downs {
 		ti := 1 + baseUps + i
+		if i >= baseDowns {
+			if prop != "C05" || h.D == nil || h.B == nil || h.CloseOp != nil || !s.Idle(misc) {
+				continue
+			}
+			ti = misc
+		}
 		if !s.Idle(ti) {
 			downVerdict[h] = verdict{"blocked", "reader still blocked after cancellation"}
 			continue
